@@ -408,6 +408,8 @@ type builder struct {
 	rec   *recorder
 	c     *Case
 	order map[string][]int // struct dest-path template -> insertion order of kids (indices)
+	// C17: when set, one schema OBJECT is built per distinct *Node pointer and reused wherever that pointer occurs
+	share map[*Node]z.ZogSchema
 }
 
 func testOpts(t Test) []z.TestOption {
@@ -417,6 +419,9 @@ func testOpts(t Test) []z.TestOption {
 	}
 	if t.Path != "" {
 		opts = append(opts, z.IssuePath(t.Path))
+	}
+	if t.Msg != "" {
+		opts = append(opts, z.Message(t.Msg))
 	}
 	return opts
 }
@@ -486,6 +491,18 @@ func buildNumber[T int | float64](s *z.NumberSchema[T], b *builder, n *Node, tmp
 }
 
 func (b *builder) build(n *Node, tmpl []string) z.ZogSchema {
+	if b.share != nil {
+		if s, ok := b.share[n]; ok {
+			return s
+		}
+		s := b.build1(n, tmpl)
+		b.share[n] = s
+		return s
+	}
+	return b.build1(n, tmpl)
+}
+
+func (b *builder) build1(n *Node, tmpl []string) z.ZogSchema {
 	switch n.K {
 	case "prim":
 		switch n.Ty {
